@@ -284,6 +284,69 @@ Section Codecs.
     end.
 End Codecs.
 
+(* ---- statement vocabulary: domains, "equal as Python values", the library record and its laws ---- *)
+(* the document written under root_key rk: the tree itself, or the tree under the single key rk *)
+Definition yaml_doc (rk : option str) (m : list (str * pdata)) : pdata :=
+  match rk with Some (c :: r) => VMap [(c :: r, VMap m)] | _ => VMap m end.
+Definition xml_domain (name_ok : str -> bool) (rt : str) (m : list (str * pdata)) : Prop :=
+  name_ok rt = true /\ wf (VMap m) = true /\ xml_ok name_ok (VMap m) = true.
+(* the representable domain of each format instance *)
+Definition in_domain (name_ok : str -> bool) (yaml_dom json_dom bson_dom pickle_dom : pdata -> Prop)
+    (f : fmt) (m : list (str * pdata)) : Prop :=
+  match f with
+  | FJson _ => json_dom (VMap m)
+  | FPickle => pickle_dom (VMap m)
+  | FXml rt => xml_domain name_ok rt m
+  | FYaml rk => yaml_dom (yaml_doc rk m)
+  | FBson => bson_dom (VMap m)
+  end.
+(* equal as Python values: dict comparison ignores key order (PyYAML returns the keys sorted) *)
+Definition same_tree (v t : pdata) : Prop := v = t \/ v = sort_keys t.
+Definition same_class (f g : fmt) : bool :=
+  match f, g with
+  | FJson _, FJson _ | FPickle, FPickle | FXml _, FXml _ | FYaml _, FYaml _ | FBson, FBson => true
+  | _, _ => false
+  end.
+
+(* everything that is not code of the repository, and what is assumed about it *)
+Record lib (B : Type) := Lib {
+  l_str_of_float : spec_float -> str;  l_float_of_str : str -> option spec_float;
+  l_et_print : elem -> B;              l_et_parse : B -> option elem;
+  l_yaml_enc : pdata -> B;             l_yaml_dec : B -> option pdata;
+  l_json_enc : bool -> pdata -> B;     l_json_dec : B -> option pdata;
+  l_bson_enc : pdata -> B;             l_bson_dec : B -> option pdata;
+  l_pickle_enc : pdata -> B;           l_pickle_dec : B -> option pdata;
+  l_name_ok : str -> bool;             (* the names the XML parser accepts as tags *)
+  l_yaml_dom : pdata -> Prop; l_json_dom : pdata -> Prop; l_bson_dom : pdata -> Prop; l_pickle_dom : pdata -> Prop
+}.
+Arguments l_str_of_float {B}. Arguments l_float_of_str {B}. Arguments l_et_print {B}. Arguments l_et_parse {B}.
+Arguments l_yaml_enc {B}. Arguments l_yaml_dec {B}. Arguments l_json_enc {B}. Arguments l_json_dec {B}.
+Arguments l_bson_enc {B}. Arguments l_bson_dec {B}. Arguments l_pickle_enc {B}. Arguments l_pickle_dec {B}.
+Arguments l_name_ok {B}. Arguments l_yaml_dom {B}. Arguments l_json_dom {B}. Arguments l_bson_dom {B}. Arguments l_pickle_dom {B}.
+
+Definition dumps {B} (L : lib B) : fmt -> list (str * pdata) -> B :=
+  fmt_dumps B (l_str_of_float L) (l_et_print L) (l_yaml_enc L) (l_json_enc L) (l_bson_enc L) (l_pickle_enc L).
+Definition loads {B} (L : lib B) : fmt -> B -> res pdata :=
+  fmt_loads B (l_float_of_str L) (l_et_parse L) (l_yaml_dec L) (l_json_dec L) (l_bson_dec L) (l_pickle_dec L).
+Definition representable {B} (L : lib B) : fmt -> list (str * pdata) -> Prop :=
+  in_domain (l_name_ok L) (l_yaml_dom L) (l_json_dom L) (l_bson_dom L) (l_pickle_dom L).
+
+Record lib_laws {B} (L : lib B) : Prop := {
+  (* float(repr(f)) == f for every binary64 value, NaN to NaN; repr uses XML characters only *)
+  law_float : forall f, valid_b64 f = true -> l_float_of_str L (l_str_of_float L f) = Some f;
+  law_float_xml : forall f, xml_text (l_str_of_float L f) = true;
+  law_name_item : l_name_ok L (sa "item") = true;
+  law_name_type : l_name_ok L (sa "type") = true;
+  (* ET.tostring -> minidom pretty printer -> ET.fromstring: structure, attributes and leaf text survive *)
+  law_et : forall e, elem_ok (l_name_ok L) e = true ->
+           exists e', l_et_parse L (l_et_print L e) = Some e' /\ elem_sim e e';
+  (* PyYAML: dump sorts the keys of every map (sort_keys=True), load reads them back *)
+  law_yaml : forall v, l_yaml_dom L v -> l_yaml_dec L (l_yaml_enc L v) = Some (sort_keys v);
+  law_json : forall pretty v, l_json_dom L v -> l_json_dec L (l_json_enc L pretty v) = Some v;
+  law_bson : forall v, l_bson_dom L v -> l_bson_dec L (l_bson_enc L v) = Some v;
+  law_pickle : forall v, l_pickle_dom L v -> l_pickle_dec L (l_pickle_enc L v) = Some v
+}.
+
 (* ---- ConfigFormat registry (core.py: register / get / initialize_registry) ---- *)
 (* class ids: the built-in classes in the order of formats/__init__.py FORMATS; others are user classes *)
 Definition builtin_formats : list (str * N) :=
